@@ -138,8 +138,49 @@ def neg_zero_slices(fn):
       elif r is True and info:
         out.append(Site('neg-zero-slice', n, BAD, '%s; the guards in force (%s) admit %s == 0' % (what, '; '.join(info), norm_text(e))))
       else:
-        out.append(Site('neg-zero-slice', n, UNKNOWN, 'cannot classify: %s; %s' % (what, info if r is None else 'no guard bounds %s away from 0' % norm_text(e))))
+        w = zero_witness(fn, n, ex)
+        if w:
+          out.append(Site('neg-zero-slice', n, BAD, '%s; no guard excludes it, and it happens for ordinary arguments: %s gives %s == 0' % (what, w, norm_text(e))))
+        else:
+          out.append(Site('neg-zero-slice', n, UNKNOWN, 'cannot classify: %s; %s' % (what, info if r is None else 'no guard bounds %s away from 0' % norm_text(e))))
   return out
+
+
+def zero_witness(fn, node, ex, grid=(1, 2, 3, 4)):
+  """Small positive integer values of the function's parameters (and of len(<parameter>)) for which the expanded expression `ex`
+  folds to 0 while every guard at `node` holds - or None.  Only arithmetic on exactly representable values is folded (a
+  quotient that binary floating point would round makes the candidate unusable), so a witness is an input of the real function."""
+  import itertools
+  params = set(a.arg for a in fn.args.args + fn.args.kwonlyargs) - {'self', 'cls'} if isinstance(fn, (ast.FunctionDef, ast.AsyncFunctionDef)) else set()
+  atoms = []
+  skip = set()
+  for x in ast.walk(ex):
+    if isinstance(x, ast.Call) and isinstance(x.func, ast.Name) and x.func.id == 'len' and len(x.args) == 1 and isinstance(x.args[0], ast.Name) and x.args[0].id in params:
+      atoms.append(norm_text(x))
+      skip.add(id(x.args[0]))
+  for x in ast.walk(ex):
+    if isinstance(x, ast.Name) and isinstance(x.ctx, ast.Load) and id(x) not in skip:
+      if x.id in params:
+        atoms.append(x.id)
+      elif x.id not in ('int', 'float', 'abs', 'min', 'max', 'len', 'math', 'np', 'numpy', 'bool'):
+        return None
+  atoms = sorted(set(atoms))
+  if not atoms or len(atoms) > 4:
+    return None
+  guards = [(U.expand_locals(fn, t, at=node), p) for t, p in guards_at(fn, node)]
+  for combo in itertools.product(grid, repeat=len(atoms)):
+    sub = dict((a, nf.rat(U.E(repr(v)))) for a, v in zip(atoms, combo))
+    if scenario.fold_numeric(ex, sub, dyadic=True) != 0 or scenario.fold_numeric(ex, sub, dyadic=True) is None:
+      continue
+    ok = True
+    for t, p in guards:
+      v = scenario.fold_numeric(t, sub, dyadic=True)
+      if v is None or bool(v) != p:
+        ok = False
+        break
+    if ok:
+      return ', '.join('%s = %d' % (a, v) for a, v in zip(atoms, combo))
+  return None
 
 
 def _counts_from_zero(fn, name_node_owner, name):
@@ -527,6 +568,8 @@ def wrapper_defaults(fi):
 
 # --------------------------------------------------------------------------------------------------------- self examples
 SELF_EXAMPLES = [
+    ('dropped-pop', 'def f(self, n):\n  if self.ev:\n    last = self.ev.pop()\n    if last.kind == 1:\n      if last.v < 9:\n        n += last.v\n      else:\n        self.ev.append(last)\n  self.ev.append(n)\n', BAD),
+    ('dropped-pop', 'def f(self, n):\n  if self.ev:\n    last = self.ev.pop()\n    if last.kind == 1 and last.v < 9:\n      n += last.v\n    else:\n      self.ev.append(last)\n  self.ev.append(n)\n', OK),
     ('neg-zero-slice', 'def f(xs, n):\n  k = len(xs) - n\n  if k < 0:\n    return\n  del xs[-k:]\n', BAD),
     ('neg-zero-slice', 'def f(xs, n):\n  k = len(xs) - n\n  if k <= 0:\n    return\n  del xs[-k:]\n', OK),
     ('neg-zero-slice', 'def f(xs, k):\n  if k:\n    return xs[:-k]\n  return xs\n', OK),
@@ -558,7 +601,95 @@ class _FakeMod:
     self.assigns = {}
 
 
+def dropped_pops(fn):
+  """`x = C.pop(...)` in a function whose job is to *add* to C: on every way out (a return, the end of the function, the end of the
+  loop body the pop sits in) the removed element has been put back or used - read somewhere other than in a branch condition.  A
+  way out on which it was only *tested* loses an element of C.  Removals whose value is not bound (`C.pop()` as a statement,
+  `del C[i]`) cannot be followed: "cannot classify"."""
+  out = []
+  pops = []
+  for st in U.walk_stmts(fn):
+    if isinstance(st, ast.Assign) and len(st.targets) == 1 and isinstance(st.targets[0], ast.Name) and isinstance(st.value, ast.Call) and \
+        isinstance(st.value.func, ast.Attribute) and st.value.func.attr == 'pop':
+      pops.append(st)
+    elif isinstance(st, ast.Expr) and isinstance(st.value, ast.Call) and isinstance(st.value.func, ast.Attribute) and st.value.func.attr == 'pop':
+      out.append(Site('dropped-pop', st, UNKNOWN, 'cannot classify: %s removes an element without binding it' % norm_text(st)))
+    elif isinstance(st, ast.Delete) and any(isinstance(t, ast.Subscript) for t in st.targets):
+      out.append(Site('dropped-pop', st, UNKNOWN, 'cannot classify: %s removes elements' % norm_text(st)))
+  for pop in pops:
+    x = pop.targets[0].id
+    lost = []
+
+    def uses(node):
+      return node is not None and any(isinstance(n, ast.Name) and n.id == x and isinstance(n.ctx, ast.Load) for n in ast.walk(node))
+
+    def walk(stmts, pend, inner):
+      """pend: the popped element is still unaccounted for.  inner: we are inside the loop body that contains the pop."""
+      for st in stmts:
+        if pend is None:
+          return None
+        if st is pop:
+          pend = True
+          continue
+        if isinstance(st, (ast.FunctionDef, ast.AsyncFunctionDef, ast.ClassDef)):
+          if uses(st):
+            pend = False
+          continue
+        if isinstance(st, ast.Return):
+          if pend and not uses(st.value):
+            lost.append(st)
+          return None
+        if isinstance(st, ast.Raise):
+          return None
+        if isinstance(st, ast.If):
+          a, b = walk(st.body, pend, inner), walk(st.orelse, pend, inner)
+          pend = None if (a is None and b is None) else bool(a) or bool(b)
+          continue
+        if isinstance(st, (ast.For, ast.While)):
+          holds = any(s is pop for s in ast.walk(st))
+          if isinstance(st, ast.For) and uses(st.iter):
+            pend = False
+          r = walk(st.body, pend, holds)
+          if holds and r:
+            lost.append(st)       # the end of an iteration: the next pop overwrites the name
+            r = False
+          r2 = walk(st.orelse, bool(pend) or bool(r), inner)
+          pend = bool(pend) or bool(r) if r2 is None else r2
+          continue
+        if isinstance(st, ast.With):
+          if any(uses(i.context_expr) for i in st.items):
+            pend = False
+          pend = walk(st.body, pend, inner)
+          continue
+        if isinstance(st, ast.Try):
+          rs = [walk(st.body, pend, inner)] + [walk(h.body, pend, inner) for h in st.handlers]
+          rs = [r for r in rs if r is not None]
+          pend = None if not rs else any(rs)
+          if st.finalbody and pend is not None:
+            pend = walk(st.finalbody, pend, inner)
+          continue
+        if isinstance(st, (ast.Continue, ast.Break)):
+          if pend and inner:
+            lost.append(st)
+          return None if inner else pend
+        if uses(st):
+          pend = False
+      return pend
+    if walk(fn.body, False, False):
+      lost.append(fn)
+    if not lost:
+      out.append(Site('dropped-pop', pop, OK, 'the element removed by %s is put back or used on every way out' % norm_text(pop)))
+    for ex in lost:
+      conds = [('' if pol else 'not ') + norm_text(t) for t, pol in (U.path_conditions(fn, ex) if ex is not fn else []) if uses(t)]
+      where = 'the end of the function' if ex is fn else ('the end of an iteration of the loop at line %d' % ex.lineno if isinstance(ex, (ast.For, ast.While)) else
+                                                            '`%s` (line %d)' % (norm_text(ex)[:40], ex.lineno))
+      out.append(Site('dropped-pop', pop, BAD, 'the element removed by `%s` is neither put back nor used when control reaches %s%s: it was only tested, and is gone' % (
+          norm_text(pop), where, (' with ' + ' and '.join(conds)) if conds else '')))
+  return out
+
+
 DETECT = {
+    'dropped-pop': lambda fn, mod: dropped_pops(fn),
     'neg-zero-slice': lambda fn, mod: neg_zero_slices(fn),
     'previous-wraps': lambda fn, mod: previous_wraps(fn),
     'falsy-zero': falsy_zero,
